@@ -59,6 +59,7 @@ def meta(tier):
                    'scheduling latency of every job wake-up symbolic 10 us..2 ms',
                    'J1939-22: see the tpref22 jobs (FD.TP.CM / FD.TP.DT fields the property enumerates)'],
         'outside': ['peer reactions faster than the job thread scheduling latency (2.5 ms lower bound; those interleavings are explored stack-vs-stack in C01)',
-                    'retransmission requests (CTS with a next-packet field that goes back)', 'reserved / assurance-data bytes of FD.TP.CM'],
+                    'retransmission requests on J1939-21 (observation O-C09-2 in DESIGN; covered on J1939-22 by the rewind jobs)',
+                    'reserved / assurance-data bytes of FD.TP.CM'],
         'assumptions': ['reference codec and peer jv/ref/tp21.py, jv/props/tpref.py written from SAE J1939-21 5.10'],
     }
